@@ -118,6 +118,7 @@ func shardMain(a []string) int {
 		fmt.Fprintln(os.Stderr, "known_findings.json:", err)
 		return 2
 	}
+	sim.CurrentCaseFile = statsFile + ".current"
 	writeStats := func(st *sim.ShardStats) {
 		st.HashFiles = map[string]string{}
 		b, _ := json.Marshal(st)
@@ -161,9 +162,10 @@ func shardMain(a []string) int {
 // ---- check ------------------------------------------------------------------------
 
 type shardOut struct {
-	code  int
-	stats *sim.ShardStats
-	log   string
+	code    int
+	stats   *sim.ShardStats
+	log     string
+	current string // path of the file holding the case the shard was executing
 }
 
 func checkMain(a []string) int {
@@ -239,7 +241,7 @@ func checkMain(a []string) int {
 			cmd := exec.Command(j.bin, "shard", prop, tier, strconv.FormatUint(seed, 10), strconv.Itoa(j.shard), strconv.Itoa(shards), replayDir, statsFile, strconv.Itoa(budget))
 			cmd.Env = append(os.Environ(), "GORACE=halt_on_error=0 log_path="+filepath.Join(tmp, fmt.Sprintf("race-%d", j.shard)))
 			out, err := cmd.CombinedOutput()
-			o := shardOut{log: string(out)}
+			o := shardOut{log: string(out), current: statsFile + ".current"}
 			if err != nil {
 				if ee, ok := err.(*exec.ExitError); ok {
 					o.code = ee.ExitCode()
@@ -273,15 +275,27 @@ func checkMain(a []string) int {
 	var violations, vioProps []string
 	var samples []json.RawMessage
 	hard := false
+	crashed := 0
 	for ji, o := range outs {
-		if o.code != 0 && o.code != 1 {
-			hard = true
-			fmt.Fprintf(os.Stderr, "shard %d exited %d:\n%s\n", jobs[ji].shard, o.code, tail(o.log, 4000))
-		}
-		if o.stats == nil {
-			hard = true
-			fmt.Fprintf(os.Stderr, "shard %d produced no stats:\n%s\n", jobs[ji].shard, tail(o.log, 4000))
-			continue
+		if (o.code != 0 && o.code != 1) || o.stats == nil {
+			// the shard died. If the Go runtime reports a fatal error or an
+			// unrecovered panic whose dump contains frames of the code under test,
+			// the case it was executing is reported as a violation (unshrunk);
+			// anything else is harness trouble.
+			if v := crashVerdict(prop, o.log, o.current, replayDir, seed, jobs[ji].shard); v != "" {
+				violations = append(violations, v)
+				vioProps = append(vioProps, prop)
+				crashed++
+				if o.stats == nil {
+					continue
+				}
+			} else {
+				hard = true
+				fmt.Fprintf(os.Stderr, "shard %d exited %d:\n%s\n...\n%s\n", jobs[ji].shard, o.code, head(o.log, 1500), tail(o.log, 2500))
+				if o.stats == nil {
+					continue
+				}
+			}
 		}
 		if strings.Contains(o.log, "WARNING: DATA RACE") {
 			// race reports are handled inside the shard; anything printed to the
@@ -411,7 +425,7 @@ func checkMain(a []string) int {
 		fmt.Fprintln(os.Stderr, "HARNESS ERROR: at least one shard failed without a verdict")
 		return 2
 	}
-	if evaluations == 0 {
+	if evaluations == 0 && crashed == 0 {
 		fmt.Fprintln(os.Stderr, "HARNESS ERROR: no case was executed")
 		return 2
 	}
@@ -442,6 +456,61 @@ func sortedKeys(m map[string]int) []string {
 	}
 	sort.Strings(ks)
 	return ks
+}
+
+func head(s string, n int) string {
+	if len(s) > n {
+		return s[:n] + "..."
+	}
+	return s
+}
+
+// crashVerdict turns a dead shard into a violation when the runtime's dump shows
+// that the code under test was involved; it returns the replay path or "".
+func crashVerdict(prop, log, currentFile, replayDir string, seed uint64, shard int) string {
+	reason := ""
+	for _, line := range strings.Split(log, "\n") {
+		if strings.HasPrefix(line, "fatal error:") || strings.HasPrefix(line, "panic:") {
+			reason = line
+			break
+		}
+	}
+	if reason == "" || !strings.Contains(log, "github.com/blugelabs/ice/v2.") {
+		return ""
+	}
+	if strings.Contains(reason, "HARNESS") || strings.Contains(log, "HARNESS ERROR") {
+		return ""
+	}
+	b, err := os.ReadFile(currentFile)
+	if err != nil {
+		return ""
+	}
+	var rp sim.Replay
+	if json.Unmarshal(b, &rp) != nil || rp.Case == nil {
+		return ""
+	}
+	site := "runtime"
+	for _, line := range strings.Split(log, "\n") {
+		if strings.HasPrefix(line, "github.com/blugelabs/ice/v2.") {
+			site = strings.TrimPrefix(line, "github.com/blugelabs/ice/v2.")
+			if i := strings.Index(site, "("); i > 0 && !strings.HasPrefix(site, "(") {
+				site = site[:i]
+			} else if i := strings.LastIndex(site, "("); i > 0 {
+				site = site[:i]
+			}
+			break
+		}
+	}
+	rp.Verdict = &sim.Fail{Prop: prop, Oracle: "process", Kind: "crash", Site: site,
+		Detail: "the shard process died while executing this case: " + reason + "\n" + head(log, 3000)}
+	rp.Property = prop
+	path := filepath.Join(replayDir, fmt.Sprintf("%s-by%s-%s-%d-%d.json", prop, prop, rp.Scenario, seed, shard))
+	out, _ := json.MarshalIndent(&rp, "", " ")
+	_ = os.MkdirAll(replayDir, 0o755)
+	if os.WriteFile(path, out, 0o644) != nil {
+		return ""
+	}
+	return path
 }
 
 func tail(s string, n int) string {
